@@ -424,6 +424,10 @@ fn end_to_end(ctx: &Ctx, total: &mut Tally) -> Value {
         if let Some(u) = v["unavailable"].as_str() {
             return json!({"skipped": format!("the sandbox does not allow it: {u}")});
         }
+        if e2e::too_slow(&v) {
+            report.push(json!({"scenario": sc.name, "verdict": e2e::slow_note(&v)}));
+            continue;
+        }
         let doc = json!({"check": "C15", "phase": "end to end through the release binary", "scenario": sc.name, "observed": v});
         let limit_ms = if sc.chronyd_delay_ms > 0 { 9000 } else { 6000 };
         match v["daemon_exited_after_ms"].as_u64() {
@@ -454,6 +458,10 @@ fn end_to_end(ctx: &Ctx, total: &mut Tally) -> Value {
         };
         if let Some(u) = v["unavailable"].as_str() {
             return json!({"skipped": format!("the sandbox does not allow it: {u}")});
+        }
+        if e2e::too_slow(&v) {
+            report.push(json!({"scenario": name, "verdict": e2e::slow_note(&v)}));
+            continue;
         }
         if v["first_lifetime_never_synchronized"] == true {
             machinery_failure(&format!("C15 end-to-end scenario '{name}': the daemon never published a Synchronized record against the stand-in chronyd"));
